@@ -24,6 +24,15 @@ func (w wrappedCodecRegistry) Load(typ reflect.Type, tag string) Codec {
 	return w.CodecRegistry.Load(typ, tag)
 }
 
+// StoreOrSwap does not publish codecs that are built while the struct codec is
+// under construction. Such a codec can refer to the struct codec (a slice of,
+// map of or pointer to a recursive type), and publishing it would let another
+// goroutine pick up and use a struct codec whose fields are still being filled
+// in. The struct codec itself is published by its builder once it is complete.
+func (w wrappedCodecRegistry) StoreOrSwap(typ reflect.Type, tag string, c Codec) Codec {
+	return c
+}
+
 func BuildStructCodec(p CodecBuilder, registry CodecRegistry, typ reflect.Type, tag string) (Codec, error) {
 	if typ.Kind() != reflect.Struct {
 		return nil, fmt.Errorf("type must be a struct to build a struct codec")
